@@ -164,6 +164,7 @@ func Build(sc *Scenario, opt Options) *Run {
 					for _, name := range lookups {
 						r.Log.Add("lookup", name)
 						r.App.GetComponentByName(name)
+						r.Log.Add("lookup-end", name)
 					}
 				}
 			}
